@@ -39,7 +39,19 @@ def sites(fn):
     """list of (description, mutate(node_copy_root) -> None) closures identified by a walk index"""
     out = []
     nodes = list(ast.walk(fn))
+    # type annotations are not behaviour
+    skip = set()
+    for f in ast.walk(fn):
+        anns = []
+        if isinstance(f, (ast.FunctionDef, ast.AsyncFunctionDef)):
+            anns = [a.annotation for a in f.args.args + f.args.kwonlyargs + f.args.posonlyargs if a.annotation is not None] + ([f.returns] if f.returns is not None else [])
+        elif isinstance(f, ast.AnnAssign):
+            anns = [f.annotation]
+        for a in anns:
+            skip.update(id(x) for x in ast.walk(a))
     for k, n in enumerate(nodes):
+        if id(n) in skip:
+            continue
         if isinstance(n, ast.Compare) and len(n.ops) == 1 and type(n.ops[0]) in CMP:
             out.append((k, "cmp", f"{type(n.ops[0]).__name__}->{CMP[type(n.ops[0])].__name__}"))
         elif isinstance(n, ast.BoolOp):
